@@ -76,8 +76,8 @@ def gen_ip_arg(rng, v6, allow_bad=True):
         return {"t": hx(t)}, "text-canonical"
     if r < 0.95 or not allow_bad:
         return {"t": hx(rng.choice(IPV6_NONCANON if v6 else IPV4_NONCANON))}, "text-noncanonical"
-    if r < 0.98:
-        return {"t": hx(rng.choice(IPV6_BAD if v6 else IPV4_BAD))}, "text-refused"
+    if r < 0.985:
+        return {"t": hx(rng.choice(IPV6_BAD if v6 else IPV4_BAD))}, "text-refused"           # the constructor must raise
     n = rng.choice([0, 3, 5, 15, 17]) if not v6 else rng.choice([0, 4, 15, 17, 32])
     return {"b": rbytes(rng, n).hex()}, "bytes-wrong-length"
 
@@ -263,8 +263,9 @@ def unjunk(j):
 
 # ------------------------------------------------------------------------------------------ independent oracles
 def canon_ip(a, v6):
-    """the text the constructor stores / the decoder restores, and the bytes on the wire — by the socket module, which is
-    not pycardano code.  Returns (stored text | None, wire bytes | None, canonical text | None) or raises OSError/ValueError."""
+    """the text as given, the bytes on the wire, and the canonical text (what the constructor stores and the decoder restores)
+    — by the socket module, which is not pycardano code.  Returns (given text | None, wire bytes | None, canonical text | None)
+    or raises OSError/ValueError (the constructor must raise too)."""
     if a is None:
         return None, None, None
     fam = socket.AF_INET6 if v6 else socket.AF_INET
@@ -301,9 +302,9 @@ def dedup(xs):
 
 def spec_params(j):
     """spec content + wire choice of the owner set for constructor arguments; None = outside the CDDL"""
-    if j["relays"] is None or j["id"] is not None:
+    if j["id"] is not None:
         return None
-    rs = [spec_relay(r) for r in j["relays"]]
+    rs = [spec_relay(r) for r in (j["relays"] or [])]          # relays=None: `__post_init__` makes it []
     if any(r is None for r in rs):
         return None
     q = Fraction(int(j["margin"][0]), int(j["margin"][1]))
